@@ -15,6 +15,13 @@ import ZxVerif.Model.Input
 namespace ZxVerif.Spectrum
 open ZxVerif.Machine
 
+/-- ghost: what the CPU did on the bus, as far as time is concerned -/
+inductive TOp
+  | mem (addr : BitVec 16) (clk : Nat)
+  | plain (clk : Nat)
+  | io (port : BitVec 16)
+  deriving Repr
+
 structure ZX where
   ctl : Ctl
   kbd : Input.Kbd := {}
@@ -31,6 +38,9 @@ structure ZX where
   correspondence compare the *whole* RAM of the real machine (stores into pages no window maps
   included) without enumerating the memory function -/
   wlog : List (Nat × Nat × BitVec 8) := []
+  /-- ghost: every timed bus operation so far with the paging latch at its start, newest first —
+  the history the contention rules of the property are stated over (Props/C04Sys.lean) -/
+  tlog : List (BitVec 8 × TOp) := []
 
 def ZX.new (k : Kind) (kempston mouse : Bool) : ZX :=
   { ctl := Ctl.new k, kbd := Input.Kbd.init kempston mouse }
@@ -51,7 +61,7 @@ def ZX.readIo (port : BitVec 16) (z : ZX) : BitVec 8 × ZX :=
     | .ay => z.ayRegs z.ayReg
     | .kempston => z.kbd.kempston.getD 0xFF
     | .floating => c1.floatingBusValue
-  (v, { z with ctl := c1.waitInternal 1 })
+  (v, { z with ctl := c1.waitInternal 1, tlog := (z.ctl.port7ffd, .io port) :: z.tlog })
 
 /-- `write_io` (no host extender) -/
 def ZX.writeIo (port : BitVec 16) (v : BitVec 8) (z : ZX) : ZX :=
@@ -64,12 +74,12 @@ def ZX.writeIo (port : BitVec 16) (v : BitVec 8) (z : ZX) : ZX :=
     | .ula => { z with ctl := c1, border := v &&& 0x07, mic := v &&& 0x08 ≠ 0, ear := v &&& 0x10 ≠ 0 }
     | .paging => { z with ctl := c1.write7ffd v }
     | .none => { z with ctl := c1 }
-  { z1 with ctl := (z1.ctl.ioContentionLast port).waitInternal 1 }
+  { z1 with ctl := (z1.ctl.ioContentionLast port).waitInternal 1, tlog := (z.ctl.port7ffd, .io port) :: z.tlog }
 
 instance : Z80.Bus ZX where
-  waitMreq a clk z := { z with ctl := z.ctl.waitMreq a clk }
-  waitNoMreq a clk z := { z with ctl := z.ctl.waitMreq a clk }
-  waitInternal clk z := { z with ctl := z.ctl.waitInternal clk }
+  waitMreq a clk z := { z with ctl := z.ctl.waitMreq a clk, tlog := (z.ctl.port7ffd, .mem a clk) :: z.tlog }
+  waitNoMreq a clk z := { z with ctl := z.ctl.waitMreq a clk, tlog := (z.ctl.port7ffd, .mem a clk) :: z.tlog }
+  waitInternal clk z := { z with ctl := z.ctl.waitInternal clk, tlog := (z.ctl.port7ffd, .plain clk) :: z.tlog }
   readInternal a z := (z.ctl.readInternal a, z)
   writeInternal a v z :=
     { z with
